@@ -52,6 +52,7 @@ func runC19(c *Ctx) {
 	c.c19StreamCurrentPage()
 	c.c19StreamGetNext()
 	c.c19GraceFromDryUp()
+	c.c19NoRewind()
 }
 
 // errDeadRule (E9): E1 looks at returns that lie wholly on the failing side of a test. A failure can also vanish without
@@ -314,7 +315,29 @@ func (c *Ctx) errDropRule(rule string, f *ssa.Function) {
 		}
 		x, nilSucc, ok := nilTest(ifi)
 		if !ok || !isErrorType(x.Type()) {
-			continue
+			// a classification of an error against kinds (Any(err, ErrInvalid), errors.Is(err, k)) is a test of that error too:
+			// on its true side the error is not nil
+			v, ts := boolTest(ifi)
+			cl, isCall := v.(*ssa.Call)
+			if !isCall || len(cl.Call.Args) < 2 {
+				continue
+			}
+			n := calleeFull(&cl.Call)
+			if !(strings.HasSuffix(n, "commonerrors.Any") || n == "errors.Is") || !isErrorType(cl.Call.Args[0].Type()) {
+				continue
+			}
+			withNil := false
+			if n != "errors.Is" {
+				for _, e := range variadicElems(cl.Call.Args[1]) {
+					if isNilConst(e) {
+						withNil = true
+					}
+				}
+			}
+			if withNil {
+				continue
+			}
+			x, nilSucc, ok = cl.Call.Args[0], 1-ts, true
 		}
 		// only errors that come out of a call
 		from := ""
@@ -357,12 +380,50 @@ func (c *Ctx) errDropRule(rule string, f *ssa.Function) {
 				if !isCall {
 					return false
 				}
+				takes := false
 				for _, a := range cl.Call.Args {
 					if sameValue(a, t.v) || resolveValue(a) == resolveValue(t.v) {
-						return true
+						takes = true
 					}
 				}
-				return false
+				if !takes {
+					return false
+				}
+				// … and the classification is of the kind "there is nothing (more) there": not found, end of stream, skip
+				// this directory. A failure classified as anything else (invalid, conflict, …) and answered with success
+				// is a failure swallowed.
+				switch n := calleeFull(&cl.Call); {
+				case strings.HasSuffix(n, "filesystem.IsPathNotExist"), n == "os.IsNotExist":
+					return true
+				case strings.HasSuffix(n, "commonerrors.Any"), n == "errors.Is", strings.HasSuffix(n, "commonerrors.None"):
+					var kinds []ssa.Value
+					if n == "errors.Is" {
+						kinds = []ssa.Value{cl.Call.Args[1]}
+					} else if len(cl.Call.Args) > 1 {
+						kinds = variadicElems(cl.Call.Args[1])
+					}
+					if len(kinds) == 0 {
+						return false
+					}
+					for _, k := range kinds {
+						u, ok := stripConv(k).(*ssa.UnOp)
+						if !ok {
+							return false
+						}
+						g, ok := u.X.(*ssa.Global)
+						if !ok {
+							return false
+						}
+						switch g.Name() {
+						case "ErrNotFound", "ErrNotExist", "ErrPathNotExist", "SkipDir", "SkipAll", "EOF", "ErrEOF", "ErrEmpty", "ErrFileNotFound":
+						default:
+							return false
+						}
+					}
+					return true
+				}
+				// another predicate of the module over the error: accepted as before
+				return !strings.Contains(calleeFull(&cl.Call), "commonerrors.")
 			})
 			if handled {
 				continue
@@ -1191,4 +1252,62 @@ func (c *Ctx) c19GraceFromDryUp() {
 	if n == 0 {
 		c.violate("E13", "collection/pagination/running-dry-never-marked", "", "nothing marks the stream as running dry any more")
 	}
+}
+
+// c19NoRewind (E14): "yields every item … exactly once". Installing a page derives a fresh iterator from it (E5): installing
+// the page the paginator is already on rewinds it, and the items already yielded come out again. The page handed to
+// setCurrentPage / SetCurrentPage inside the package is therefore never the current page itself (a load of currentPage, the
+// result of FetchCurrentPage) — in a function or in one of its deferred literals.
+func (c *Ctx) c19NoRewind() {
+	c.rule("E14", "inside the package the page installed as current is never the page the paginator is already on: re-installing it would rewind its iterator and yield its items twice", 2)
+	n := 0
+	isCurrent := func(v ssa.Value) bool {
+		for _, l := range sources(v, deriveOpts{}) {
+			l = resolveValue(l)
+			switch x := l.(type) {
+			case *ssa.UnOp:
+				if fa, ok := x.X.(*ssa.FieldAddr); ok {
+					if so := structOf(fa.X.Type()); so != nil && so.Field(fa.Field).Name() == "currentPage" {
+						return true
+					}
+				}
+			case *ssa.Extract:
+				if cl, ok := x.Tuple.(*ssa.Call); ok {
+					if g := staticCallee(&cl.Call); g != nil && (g.Name() == "FetchCurrentPage" || g.Name() == "GetCurrentPage") {
+						return true
+					}
+					if cl.Call.IsInvoke() && (cl.Call.Method.Name() == "FetchCurrentPage" || cl.Call.Method.Name() == "GetCurrentPage") {
+						return true
+					}
+				}
+			}
+		}
+		return false
+	}
+	for _, f := range c.srcFuncs("collection/pagination") {
+		allInstrs(f, func(in ssa.Instruction) {
+			cc := callCommon(in)
+			if cc == nil {
+				return
+			}
+			name := ""
+			if g := staticCallee(cc); g != nil {
+				name = g.Name()
+			} else if cc.IsInvoke() {
+				name = cc.Method.Name()
+			}
+			if name != "setCurrentPage" && name != "SetCurrentPage" {
+				return
+			}
+			// the setters themselves forward their parameter
+			if o := outermost(f); o.Name() == "SetCurrentPage" || o.Name() == "setCurrentPage" {
+				return
+			}
+			n++
+			arg := cc.Args[len(cc.Args)-1]
+			c.check(!isCurrent(arg), "E14", fname(outermost(f))+"/installs-another-page", c.ipos(in), "the page installed is not the current one",
+				"the page installed here is the page the paginator is already on: its iterator is derived anew and starts again at its first item — after a failed move to the next page every item of the current page that was already yielded is yielded a second time, and HasNext, which had answered false, answers true again")
+		})
+	}
+	c.Extra["pages_installed"] = n
 }
